@@ -568,7 +568,7 @@ pub fn run(e: &Engine) {
     e.campaign(
         "outbound",
         "single-replica sequences of create/delete/set (arbitrary Unicode property names and values, second and nanosecond timestamps)/undo-point/sync; every transmitted version checked field by field and the concatenation compared with the committed operations minus undo points; non-trivial = a transmitted stretch contained a non-ASCII/escaped string, a sub-second timestamp or a delete of a populated task",
-        e.tier.pick(6000, 300_000),
+        e.tier.pick(60_000, 1_500_000),
         || out_strategy(30, false),
         |c| serde_json::to_value(c).unwrap(),
         check_outbound,
@@ -576,7 +576,7 @@ pub fn run(e: &Engine) {
     e.campaign(
         "outbound-multibatch",
         "as 'outbound' with updates of 200-350 kB multi-byte text so that pending changes are sent as several versions",
-        e.tier.pick(48, 2000),
+        e.tier.pick(200, 4000),
         || out_strategy(12, true),
         |c| serde_json::json!({"ops": c.ops.iter().map(|o| match o { WOp::Big { t, kb } => format!("big update of t{t}, {kb}x500 two-byte chars"), other => format!("{other:?}") }).collect::<Vec<_>>()}),
         check_outbound,
@@ -584,7 +584,7 @@ pub fn run(e: &Engine) {
     e.campaign(
         "outbound-multi-replica",
         "multi-replica histories with conflicts: every version on the chain checked field by field; non-trivial = some sync both pulled and pushed",
-        e.tier.pick(2000, 100_000),
+        e.tier.pick(20_000, 500_000),
         || super::common::history_strategy(3, 3, 24, 0),
         super::common::render_history,
         check_outbound_multi,
@@ -592,7 +592,7 @@ pub fn run(e: &Engine) {
     e.campaign(
         "inbound",
         "1-4 versions produced by a grammar (permuted field order, varied whitespace, \\uXXXX escapes incl. surrogate pairs, 0-9 fractional digits, operations on missing/existing tasks) pre-loaded into the harness server; an empty replica syncs and must equal the reference replay; non-trivial = a document with non-canonical field order, precision or escapes",
-        e.tier.pick(6000, 300_000),
+        e.tier.pick(60_000, 1_500_000),
         in_strategy,
         |c| serde_json::json!({"documents": c.docs.iter().map(|d| render_doc(d).0).collect::<Vec<_>>()}),
         check_inbound,
